@@ -14,6 +14,7 @@ CONSTANTS
   IdKinds = {"str", "int"}
   TabShapes = {"plain", "unsorted_repeat", "late"}
   SrcDims = {1, 0}
+  NoiseKinds = {"diag", "scalar_loaded"}
   MaxDev = 2
   Deviations = {}
 INVARIANT Honoured
